@@ -161,6 +161,41 @@ def work(clsname):
         for v1 in doms[n1][:2]:
             for v2 in doms[n2][:2]:
                 vectors.append({**base, n1: v1, n2: v2})
+    # composite content: white-space-only text between / before child elements must survive a re-parse
+    for kw in vectors[:1]:
+        try:
+            obj = cls(**kw)
+        except Exception:
+            break
+        for variant in ("blank-tail-between-children", "blank-text-before-first-child", "mixed-text-and-blank-tails"):
+            nev += 1
+            try:
+                o2 = cls(**kw)
+                e = o2._Element__element
+                for ch in list(e):
+                    e.remove(ch)
+                e.text = None
+                a = Element.from_tag("<text:span>a</text:span>")._Element__element
+                b = Element.from_tag("<text:span>b</text:span>")._Element__element
+                if variant == "blank-tail-between-children":
+                    a.tail = " "
+                elif variant == "blank-text-before-first-child":
+                    e.text = " "
+                    a.tail = "\n  "
+                else:
+                    e.text = "x"
+                    a.tail = " "
+                    b.tail = " y "
+                e.append(a)
+                e.append(b)
+                xml = o2.serialize()
+                back = Element.from_tag(xml)
+                if etree.tostring(back._Element__element, method="c14n") != etree.tostring(e, method="c14n"):
+                    rec(f"{clsname}.from_tag(serialize)", variant, "infoset", xml[:160], back.serialize()[:160], "infoset-differs-after-reparse", kw)
+                elif type(back) is not type(o2):
+                    rec(f"{clsname}.from_tag", variant, "class", clsname, type(back).__name__, "different-class-after-reparse", kw)
+            except Exception as ex:
+                rec(f"{clsname}.from_tag(serialize)", variant, "raises", "no exception", f"{type(ex).__name__}: {ex}"[:150], f"raises:{type(ex).__name__}", kw)
     seen_ctor_error = set()
     for kw in vectors:
         nev += 1
